@@ -11,6 +11,9 @@ def nontrivial(req, obs):
         return f[5] != "-" and any(len(e.split(":")[1]) > 0 for e in f[5].split(";"))
     if f[0] == "C14.disk":
         return f[4] != "-"
+    if f[0] == "C14.lex":
+        # something was inserted into a text of at least two tokens
+        return f[2] != "-" and obs.count(";") >= 1
     if f[0] in ("C14.locate", "C14.render"):
         # a position inside a file that is not the first line of the first file
         return not obs.startswith("none") and f[1] != "-" and "," in f[1]
@@ -40,6 +43,8 @@ def finding_key(req, obs, detail):
             return "line-break between a function-like macro name and ( of its invocation"
         if "macro-args-empty" in flags and cls == "line-break":
             return "line-break inside the empty argument list of a macro invocation"
+        if "swizzled-literal" in flags:
+            return "trivia after the . of a swizzled numeric literal"
         return "%s at %s %s: %s" % (cls, toks, flags, code)
     return "%s: %s" % (ctx, code)
 
@@ -70,7 +75,7 @@ def search(ctx):
 
 SPEC = {
     "id": "C14",
-    "gens": ["SourceMapTables"],
+    "gens": ["SourceMapTables", "LexTables"],
     "lean_modules": ["RsslVerif.Thm.C14"],
     "theorems": [T + n for n in [
         "tables_as_modelled", "insert_shift", "line_shift", "line_shift_before", "inline_trivia_shift",
